@@ -101,6 +101,7 @@ type Outcome struct {
 	Err      error
 	PlanErr  bool
 	Hung     bool
+	PlanHung bool
 	Panicked interface{}
 	Plans    gateway.QueryPlanList
 }
@@ -109,6 +110,7 @@ type Outcome struct {
 // started by the executor kills the process (the worker protocol attributes it to the case).
 func (f *Fed) Run(query, op string, vars map[string]interface{}, timeout time.Duration) Outcome {
 	ch := make(chan Outcome, 1)
+	planned := make(chan struct{})
 	go func() {
 		defer func() {
 			if r := recover(); r != nil {
@@ -117,6 +119,7 @@ func (f *Fed) Run(query, op string, vars map[string]interface{}, timeout time.Du
 		}()
 		rc := &gateway.RequestContext{Context: context.Background(), Query: query, OperationName: op, Variables: vars}
 		plans, err := f.GW.GetPlans(rc)
+		close(planned)
 		if err != nil {
 			ch <- Outcome{Err: err, PlanErr: true}
 			return
@@ -124,6 +127,13 @@ func (f *Fed) Run(query, op string, vars map[string]interface{}, timeout time.Du
 		d, e := f.GW.Execute(rc, plans)
 		ch <- Outcome{Data: d, Err: e, Plans: plans}
 	}()
+	select {
+	case <-planned:
+	case r := <-ch:
+		return r
+	case <-time.After(5 * time.Second):
+		return Outcome{Hung: true, PlanHung: true}
+	}
 	select {
 	case r := <-ch:
 		return r
